@@ -20,6 +20,21 @@ from harness.props.c15 import VALUES, VALUE_NAMES, value_of      # the value tok
 EXC = ['err', 'fail', 'skip']
 UNCLAIMED = ['ki', 'exit', 'genexit']                       # KeyboardInterrupt, SystemExit, GeneratorExit
 CLEANUP_KW = ['f', None, 'fn', 'function', 'self', 'args', 'kwargs', 'x']   # names of the keyword argument of a cleanup (None: none)
+
+
+def cleanup_kws(n, T):
+    """the names of the keyword arguments of cleanup number n of a run with timeout T: none, or one of the fixed names above (the floor)
+    plus one of the further names of harness/kwnames.py - the parameter names, read with inspect from the tree under test, of every
+    function a cleanup's arguments travel through (addCleanup, _run_cleanups, the runners' _run_user, maybeDeferred, _got_user_exception,
+    _got_user_failure): a renamed parameter on that path is followed"""
+    from harness import kwnames
+    i = n + T
+    floor = CLEANUP_KW[i % len(CLEANUP_KW)]
+    if floor is None:
+        return []
+    more = [k for k in kwnames.names() if k not in CLEANUP_KW]
+    used = sum(CLEANUP_KW[j % len(CLEANUP_KW)] is not None for j in range(i))        # every further name gets its turn
+    return [floor] + ([more[used % len(more)]] if more else [])
 REAL_UNIT = 0.04                                            # seconds per time unit in the real-reactor scenarios
 
 
@@ -85,10 +100,12 @@ class C14(Prop):
         'call (emitted synchronously by the stage with the reactor\'s namespace and format; a delayed call that actually raises is not '
         'generated: harness/vreactor.py has an exception barrier, it does not log); the model does not distinguish routes; every quick run '
         'covers route x store_twisted_logs x suppress_twisted_logging x runner variant x stage',
-        'cleanups are registered with positional and one keyword argument whose name cycles (by registration number + timeout) through '
-        'f, fn, function, self, args, kwargs, x and none - names of parameters of the functions the arguments travel through '
-        '(maybeDeferred(f, ...), _run_user(function, ...), addCleanup(fn, ...)); the cleanup checks that it receives exactly them; the '
-        'model ignores arguments',
+        'cleanups are registered with positional and keyword arguments: none, or one whose name cycles (by registration number + timeout) '
+        'through f, fn, function, self, args, kwargs, x plus one whose name cycles through the further names of harness/kwnames.py - the '
+        'parameter names, read with inspect from the tree under test, of every function the arguments travel through (addCleanup, '
+        '_run_cleanups, _run_user of the three runners, maybeDeferred, _got_user_exception, _got_user_failure; on the unchanged code: '
+        'result, callable, key, arguments, keywordArguments, exc_info, tb_label, failure), so that a renamed parameter is followed; the '
+        'cleanup checks that it receives exactly them; the model ignores arguments',
         'LIMIT OF THE MODEL (audit C14 v1): an interrupt is "reactor.stop() requested at an instant of virtual time" (a delayed call). The '
         'runtime behaviour it cannot exhibit: a real SIGINT landing in the reactor iteration in which the run ends (while a synchronous '
         'stage runs, inside the delayed call that fires the last Deferred, or so shortly before it / before the timeout call that the '
@@ -279,15 +296,14 @@ class C14(Prop):
         def register(case, cleanups):
             # cleanups are registered with positional AND keyword arguments; the keyword's name cycles through names that collide
             # with parameters of the functions the arguments travel through (maybeDeferred(f, ...), _run_user(function, ...),
-            # addCleanup(fn, ...)): cleanup number n of a run with timeout T gets CLEANUP_KW[(n + T) % len(CLEANUP_KW)]
+            # addCleanup(fn, ...)): cleanup number n of a run with timeout T gets cleanup_kws(n, T) - none, or a fixed name and a name read
+            # from the signatures of the tree under test
             for c in cleanups:
                 n = next(numbering)
-                kw = CLEANUP_KW[(n + T) % len(CLEANUP_KW)]
-                case.addCleanup(do_cleanup, case, ['cleanup', n], c, **({kw: ('kw', n)} if kw else {}))
+                case.addCleanup(do_cleanup, case, ['cleanup', n], c, **{kw: ('kw', kw, n) for kw in cleanup_kws(n, T)})
 
-        def do_cleanup(case, name, stage, **kwargs):
-            kw = CLEANUP_KW[(name[1] + T) % len(CLEANUP_KW)]
-            if kwargs != ({kw: ('kw', name[1])} if kw else {}):
+        def do_cleanup(case, name, stage, /, **kwargs):
+            if kwargs != {kw: ('kw', kw, name[1]) for kw in cleanup_kws(name[1], T)}:
                 raise AssertionError('cleanup %r called with keyword arguments %r' % (name, kwargs))
             return do(case, name, stage)
 
@@ -622,7 +638,7 @@ class C14(Prop):
              'suppress=%s' % suppress, 'store=%s' % store, 'observers=%d' % n_obs, 'stops=%d' % len(stops),
              'cleanups=%d' % min(len(stages) - 3, 6), 'cleanup-nesting=%d' % (max(self.depth(m) for m in inp[6:9]) - 1)]
         for n in range(len(stages) - 3):
-            f.append('cleanup-keyword:' + str(CLEANUP_KW[(n + T) % len(CLEANUP_KW)]))
+            f.extend('cleanup-keyword:' + k for k in cleanup_kws(n, T) or ['None'])
         for s in stages:
             f.append('beh:' + (s[2] if isinstance(s[2], str) else s[2][0] + ('-' + s[2][-1] if s[2][0] in ('raise', 'faild') else '')))
             if isinstance(s[2], list) and ((s[2][0] == 'ret') or (s[2][0] == 'fire' and len(s[2]) > 2)):
